@@ -102,11 +102,11 @@ mod imp {
         let mut case = if fixture {
             valid_stream(&mut rng, &GenConfig::small(), 1, 0)
         } else {
-            let cfg = GenConfig { max_dim: 48, max_frames: 5, min_frames: 2, max_pixels: 48 * 48, ..GenConfig::small() }.swarm(&mut rng);
+            let cfg = GenConfig { max_dim: 48, max_frames: 5, min_frames: 2, max_pixels: 48 * 48, vardct: rng.chance(1, 4), ..GenConfig::small() }.swarm(&mut rng);
             let prog = random_program(&mut rng, &cfg);
             let shape = program_shape(&prog);
             let (bytes, map) = prog.encode().expect("encode");
-            StreamCase { structural: map.structural_offsets(), headers: vec![], container: false, aux_after_codestream: false, brob_after_codestream: false, shape, source: "jxlgen".into(), program: serde_json::to_value(&prog).ok(), bytes }
+            StreamCase { structural: map.structural_offsets(), headers: vec![], container: false, aux_after_codestream: false, brob_after_codestream: false, shape, source: "jxlgen".into(), has_vardct: prog.frames.iter().any(|f| f.vardct.is_some()), program: serde_json::to_value(&prog).ok(), bytes }
         };
         if corrupt {
             let len = case.bytes.len();
@@ -139,6 +139,7 @@ mod imp {
     }
 
     fn viol(seed: u64, sc: &Scenario, class: String, detail: String) -> Violation {
+    let class = if sc.case.has_vardct && !class.starts_with("panic:") { format!("{class}+vardct") } else { class };
         Violation { property: "C08".into(), check: "c08".into(), class, detail, seed, scenario: serde_json::to_value(sc).unwrap() }
     }
 
